@@ -221,6 +221,29 @@ for _pid, (_t, _x) in ADD4.items():
     CLAIMED[_pid]["technique"] += _t
     CLAIMED[_pid]["text"] += _x
 
+# rules added during the fourth round of seeded changes
+ADD5 = {
+    "C01": ("; error-origin audit of the limit reader; guard audit of deferred stores to a named error result", " Also: the limit reader reports an end of stream only when its source did (or behind the limit test); a deferred clean-up does not replace the error the body returned."),
+    "C02": ("; origin audit of what the manifest cache stores; store order of reference digest and header digest in the constructor", " Also: the manifest cache never stores a manifest rebuilt from a struct; a digest pinned in the reference is not overridden by a response header."),
+    "C03": ("; select/receive dominance of the 'nothing to do' answers of the in-flight table; cache and paging rules shared with C10.R2 / C06.R4", " Also: a caller that finds content in flight is told it is there only after the first copier has finished; filtered referrer listings are not cached under the subject; the tag listing ends only on the limit, an error, or a page without a next link."),
+    "C04": ("; guard audit of every completion received in a loop (sticky barrier error); context-independence of a loader whose failure the layout GC ignores (shared with C08.R9)", " Also: the barrier never replaces a collected failure by a later completion unless that completion is itself a failure (D19, fixed); a Close with a cancelled context after an interrupted copy cannot sweep what other tags need."),
+    "C05": ("; fresh-temp-file rule shared with C07.R1; must-not-reach of the host-drop flag from the failure edge of the HTTP round trip (shared with C12.R10)", " Also: the layout upload writes into a CreateTemp file; a connection reset in the middle of an upload session is retried on the registry, not answered by giving the only host up."),
+    "C06": ("; sweep-under-lock rule shared with C08.R2", " Also: the layout's sweep runs under the mutex that every writer of the index takes."),
+    "C07": ("; must-not-reach of a failing return after the index decode; in-flight wait shared with C03.R4", " Also: while the index updater starts a new index when the old one cannot be read, the reader never refuses an index it has parsed; a manifest is not published into a layout while a blob it shares with another image of the copy is in flight."),
+    "C08": ("; context-independence of a loader whose failure the mark phase passes over", " Also: nothing the ignored loader calls consults the context."),
+    "C10": ("; fresh-storage rule for list filters shared with C03.R6; origin audit of the listing the client's ReferrerList returns", " Also: a filtered query builds its answer in fresh storage; every ReferrerList call of the client is answered by a scheme call made by that very call."),
+    "C11": ("; value audit of the descriptor given to the target's existence test shared with C03.R7", " Also: the target's login is not offered to the hosts named in a layer's external URLs by the existence test of BlobCopy."),
+    "C12": ("; rewindable upload source shared with C05.R6; must-not-reach of the host-drop flag from the failure edge of the HTTP round trip", " Also: a transport failure is retried on the same host after the backoff."),
+    "C14": ("; syntax audit for link-refusing file calls in the layout scheme (expected count zero, positive example in the self-test)", " Also: the layout's existence tests follow links as its reads do."),
+    "C16": ("; data-dependence audit of values a function literal remembers across its calls", " Also: a value remembered by a per-image step (the rebase bases) does not depend on the image it was computed for."),
+    "C17": ("; sync.Map variant of the throttle-table rule", " Also: a sync.Map of queues is only filled with LoadOrStore."),
+    "C18": ("; exact-before-loose lookup shared with C06.R6", " Also: the layout resolves a tag exactly before any loose match."),
+    "C19": ("; who-may-store audit of the dry-run flag's field; unchecked-assertion audit on Lua values in the runner", " Also: nothing but the flag binding writes the dry-run option; the runner never asserts the type of a script-controlled value without the comma-ok form."),
+}
+for _pid, (_t, _x) in ADD5.items():
+    CLAIMED[_pid]["technique"] += _t
+    CLAIMED[_pid]["text"] += _x
+
 def main():
     props = [json.loads(l)["id"] for l in open("/verif/properties.jsonl")]
     checks = []
